@@ -66,6 +66,9 @@ pub fn run_one(out: &mut Out, sc: usize, s: &J) {
         let r: J = match (name, &a) {
             ("root", _) => { let k = root(op["i"].as_u64().unwrap_or(0)); let b = k.as_bytes(); val = Val::Xprv(b.clone()); okb(&b) }
             ("normal", _) => match call(|| csl::PrivateKey::from_normal_bytes(&[op["i"].as_u64().unwrap_or(0) as u8; 32])) { Outcome::Ok(k) => { let b = k.as_bytes(); val = Val::Sk(b.clone()); okb(&b) } o => o.to_json(|_| obj(vec![])) },
+            // an extended key imported from bytes: the bytes of key a with a bit pattern or-ed into one byte
+            ("tweak", Val::Xprv(k)) => { let mut b = k.clone(); let i = op["byte"].as_u64().unwrap_or(0) as usize; if i < b.len() { b[i] |= op["mask"].as_u64().unwrap_or(0) as u8; }
+                match call(|| csl::Bip32PrivateKey::from_bytes(&b)) { Outcome::Ok(c) => { let cb = c.as_bytes(); val = Val::Xprv(cb.clone()); okb(&cb) } o => o.to_json(|_| obj(vec![])) } }
             ("derive", Val::Xprv(k)) => match call_total(|| xprv(k).derive(ix_of(&op["ix"]))) { Outcome::Ok(c) => { let b = c.as_bytes(); val = Val::Xprv(b.clone()); okb(&b) } o => o.to_json(|_| obj(vec![])) },
             ("pub", Val::Xprv(k)) => match call_total(|| xprv(k).to_public()) { Outcome::Ok(c) => { let b = c.as_bytes(); val = Val::Xpub(b.clone()); okb(&b) } o => o.to_json(|_| obj(vec![])) },
             ("dpub", Val::Xpub(k)) => match call(|| xpub(k).derive(ix_of(&op["ix"]))) { Outcome::Ok(c) => { let b = c.as_bytes(); val = Val::Xpub(b.clone()); okb(&b) } o => o.to_json(|_| obj(vec![])) },
